@@ -1,6 +1,6 @@
 \* as-built switches (pinned tree): PROG log with the expected (declarative) and the as-built status
-\* family: every invocation within 2 changes of the plain one, plus the share C26_PART/C26_NPARTS of those with 3 changes
-CONSTANTS MaxDev = 2  SampleDev = 3  MaxPaths = 2  MaxModels = 2  MaxModelsRich = 2  MaxOpts = 2
+\* quick family: every invocation within 2 changes of a base call (no 3-change sample: SampleDev = 9 disables it; thorough has it)
+CONSTANTS MaxDev = 2  SampleDev = 9  MaxPaths = 2  MaxModels = 2  MaxModelsRich = 2  MaxOpts = 2
           CliCountsTranslateFailures = FALSE  CliCatchesTranslateErrors = FALSE  CliCountsMissingModelFile = FALSE
           Emit = TRUE  NParts <- NPartsEnv  Part <- PartEnv
 INIT Init
